@@ -21,7 +21,7 @@ func RacePass(iterations int) {
 		w.era.Apply()
 		dir := drive.Scratch("c18r")
 		drive.CopyDB(w.dir+"/start/db", dir+"/db")
-		d, err := drive.Open(dir+"/db", fake.NewNode(w.b.Chain), nil, false)
+		d, err := drive.Continue(dir+"/db", fake.NewNode(w.b.Chain), nil, false)
 		if err != nil {
 			panic(err)
 		}
